@@ -125,3 +125,7 @@ func (b *Bank) ZModuleBal(module, denom string) Z        { return ZOfBig(b.Modul
 func (b *Bank) ZSupply(denom string) Z                   { return ZOfBig(b.Supply(denom).BigInt()) }
 
 var _ = big.NewInt
+
+func (b *Bank) GetSupply(_ sdk.Context, denom string) sdk.Coin {
+	return sdk.Coin{Denom: denom, Amount: b.Supply(denom)}
+}
